@@ -1,0 +1,33 @@
+"""Verification hooks (off by default).
+
+Enabled only when the environment variable PARGLARE_VERIF=1 is set at import time.
+With the guard off every hook site costs one boolean test.  With the guard on, hook
+sites hand raw objects to `sink` (a callable installed by an external recorder); this
+module itself records nothing and changes no behaviour, with one exception that is
+also opt-in: when PARGLARE_VERIF_MAX_STATES=n is set, LR table construction raises
+StateBudgetExceeded once more than n automaton states exist, so that divergence of
+the construction can be decided by a state budget instead of a wall clock.
+"""
+import os
+
+ON = os.environ.get("PARGLARE_VERIF") == "1"
+
+# callable(kind: str, fields: dict) or None
+sink = None
+
+
+class StateBudgetExceeded(Exception):
+    pass
+
+
+def emit(kind, **fields):
+    if sink is not None:
+        sink(kind, fields)
+
+
+def state_budget(grammar, n_states, old_start_rhs):
+    limit = os.environ.get("PARGLARE_VERIF_MAX_STATES")
+    if limit and n_states > int(limit):
+        # leave the grammar as create_table found it
+        grammar.productions[0].rhs = old_start_rhs
+        raise StateBudgetExceeded(n_states)
